@@ -706,43 +706,62 @@ AltBlocks(ss, file) ==
                            res \cup {[id |-> evs[i].id, sym |-> evs[i].sym, b |-> open[k].l, e |-> evs[i].l]})
   IN go(1, <<>>, {})
 
-InAltBlock(ss, f) ==
-  \E b \in AltBlocks(ss, f.file) : Glob(b.id, f.id) /\ (b.sym = "" \/ \E y \in f.syms : Glob(b.sym, y)) /\ b.b <= f.line /\ f.line <= b.e
-NonBlock(S) == {x \in S : x.k \notin {"blk", "beg", "end"}}
-AltHide1(F, ss)   == {f \in F : (\E s \in NonBlock(ToSet(ss)) : M3(s.n, f, {}) = "yes") \/ InAltBlock(ss, f)}
-AltReport1(F, ss) == {f \in F : (\A s \in NonBlock(ToSet(ss)) : M3(s.n, f, {}) = "no") /\ ~InAltBlock(ss, f)}
-
 \* alternative 2: of two suppressions with the same id, file, line and symbol - the line of a block being the line of
 \* its begin comment, the line of a file-level comment the line it stands on - only the one given first (command
 \* line and files come before inline comments) takes effect
 CommentLine(s) == IF s.k = "std" THEN (IF s.line = 0 /\ s.at # NoAt THEN 1 ELSE s.line) ELSE IF s.k = "blk" THEN s.b ELSE -1
 SameParams(s, t) == s.id = t.id /\ s.sym = t.sym /\ CommentLine(s) = CommentLine(t) /\ CommentLine(s) > 0
                     /\ s.file # "" /\ StripDotSlash(Chars(s.file)) = Chars(t.file)
-Dropped(S) == {t \in S : t.k \in {"blk", "std"} /\ (t.k = "blk" \/ t.line = 0) /\ \E s \in S : s # t /\ s.k = "std" /\ s.line # 0 /\ SameParams(s, t)}
+FirstGiven(S) == {s \in S : s.k = "std" /\ s.line # 0 /\ s.at = NoAt}            \* never written as a comment
+Dropped(S) == {t \in S : t.k \in {"blk", "std"} /\ (t.k = "blk" \/ t.line = 0) /\ \E s \in FirstGiven(S) : s # t /\ SameParams(s, t)}
 
 \* alternative 3: an id pattern with `**` before further characters matches nothing
 StarStarInside(id) == \E i \in 1..(Len(id) - 2) : SubSeq(id, i, i + 1) = "**"
 HasQuestion(id) == \E i \in 1..Len(id) : SubSeq(id, i, i) = "?"
+
+\* hidden / reported under a set of alternatives a \subseteq {1, 2, 3}
+AltForms(ss, a) == SelectSeq(ss, LAMBDA s : ~(3 \in a /\ StarStarInside(s.id)) /\ ~(2 \in a /\ 1 \notin a /\ s \in Dropped(ToSet(ss))))
+AltBlocksKept(ss, file, a) ==
+  {b \in AltBlocks(ss, file) :
+     ~(2 \in a /\ \E s \in FirstGiven(ToSet(ss)) : s.id = b.id /\ s.sym = b.sym /\ s.line = b.b /\ StripDotSlash(Chars(s.file)) = Chars(file))}
+InAltBlock(ss, f, a) ==
+  \E b \in AltBlocksKept(ss, f.file, a) : Glob(b.id, f.id) /\ (b.sym = "" \/ \E y \in f.syms : Glob(b.sym, y)) /\ b.b <= f.line /\ f.line <= b.e
+NonBlock(S) == {x \in S : x.k \notin {"blk", "beg", "end"}}
+AltHide(F, ss, a) ==
+  LET ss2 == AltForms(ss, a)
+      S2  == ToSet(ss2)
+      nb  == NonBlock(S2) \ (IF 2 \in a THEN Dropped(ToSet(ss)) ELSE {})
+  IN IF 1 \in a THEN {f \in F : (\E s \in nb : M3(s.n, f, {}) = "yes") \/ InAltBlock(ss2, f, a)} ELSE MustHide(F, S2)
+AltReport(F, ss, a) ==
+  LET ss2 == AltForms(ss, a)
+      S2  == ToSet(ss2)
+      nb  == NonBlock(S2) \ (IF 2 \in a THEN Dropped(ToSet(ss)) ELSE {})
+  IN IF 1 \in a THEN {f \in F : (\A s \in nb : M3(s.n, f, {}) = "no") /\ ~InAltBlock(ss2, f, a)} ELSE MustReport(F, S2)
 
 Consistent(o, hide, report) == {Key(f) : f \in report} \subseteq o /\ {Key(f) : f \in hide} \cap o = {}
 
 RECURSIVE JoinNames(_)
 JoinNames(ns) == IF ns = <<>> THEN "" ELSE IF Len(ns) = 1 THEN ns[1] ELSE ns[1] \o "+" \o JoinNames(Tail(ns))
 
+AltName(i) == CASE i = 1 -> "end-closes-latest-begin" [] i = 2 -> "same-id-file-line-dropped" [] i = 3 -> "double-star-inside-id-matches-nothing"
+AltSets == << {1}, {2}, {3}, {1, 2}, {1, 3}, {2, 3}, {1, 2, 3} >>      \* the smallest explaining set names the class
+
 Class(p, r, w) ==
-  LET S  == FormsOfPick(p)
+  LET ss == FormSeq(p)
+      S  == ToSet(ss)
       F  == Findings(ToSet(p.present), p.style)
       o  == ObsKeys(r)
       onlyInvalid == \A k \in w.extra : k[4] = "invalidSuppression"
-      S2 == S \ Dropped(S)
-      S3 == {s \in S : ~StarStarInside(s.id)}
+      applies(a) == /\ (1 \in a => (\E s \in S : s.k = "blk") /\ r.run.inline)
+                    /\ (2 \in a => Dropped(S) # {} \/ (1 \in a /\ FirstGiven(S) # {}))
+                    /\ (2 \in a => r.run.inline)
+                    /\ (3 \in a => \E s \in S : StarStarInside(s.id))
+                    /\ (IF 1 \in a THEN onlyInvalid ELSE w.extra = {})
+      explains == {i \in 1..Len(AltSets) : applies(AltSets[i]) /\ Consistent(o, AltHide(F, ss, AltSets[i]), AltReport(F, ss, AltSets[i]))}
   IN IF w.refused THEN (IF \E s \in S : HasQuestion(s.id) THEN "error-id-with-?-refused" ELSE "refused:" \o JoinNames(p.forms))
-     ELSE IF (\E s \in S : s.k = "blk") /\ r.run.inline /\ onlyInvalid /\ Consistent(o, AltHide1(F, FormSeq(p)), AltReport1(F, FormSeq(p)))
-       THEN "end-closes-latest-begin"
-     ELSE IF S2 # S /\ r.run.inline /\ w.extra = {} /\ Consistent(o, MustHide(F, S2), MustReport(F, S2))
-       THEN "same-id-file-line-dropped"
-     ELSE IF S3 # S /\ w.extra = {} /\ Consistent(o, MustHide(F, S3), MustReport(F, S3))
-       THEN "double-star-inside-id-matches-nothing"
+     ELSE IF explains # {}
+       THEN LET a == AltSets[CHOOSE i \in explains : \A j \in explains : i <= j]
+            IN JoinNames([k \in 1..Cardinality(a) |-> AltName(SetToSeq(a)[k])])
      ELSE "other:" \o JoinNames(p.forms)
 
 BadRuns ==
